@@ -246,6 +246,8 @@ type fixedCase struct {
 
 var libSrc = "如何加一？\n    输入X\n    输出 （内部：X） + 1\n如何内部？\n    输入Y\n    输出 Y * 2\n定义盒：\n    其值设为7\n令私有 = 5\n"
 
+var shapeSrc = "如何求平方？\n    输入X\n    输出 X * X\n如何加边？\n    输入X\n    输出 X + 1\n定义方块：\n    其边设为0\n    其面积设为0\n    如何扩大？\n        输入K\n        输出（求平方：其边 * K）\n    如何周长？\n        输出（加边：其边 * 4）\n如何新建方块？\n    输入边\n    其边 = 边\n    其面积 = （求平方：边）\n"
+
 var fixed = []fixedCase{
 	{"import all: methods available", "导入“库”\n输出（加一：3）", map[string]string{"库": libSrc}, false, 7},
 	{"imported method uses its module's other methods", "导入“库”之加一\n输出（加一：3）", map[string]string{"库": libSrc}, false, 7},
@@ -260,6 +262,12 @@ var fixed = []fixedCase{
 	{"library imported by main and by a module", "导入《@算》\n导入“用库”\n输出（加倍：2）+（用库法：3）", map[string]string{"用库": "导入《@算》\n如何用库法？\n    输入X\n    输出（取反：X）\n"}, false, 1},
 	{"library imported by two sibling modules", "导入“左”\n导入“右”\n输出（左法）+（右法）", map[string]string{"左": "导入《@算》\n如何左法？\n    输出（加倍：1）\n", "右": "导入《@算》之取反\n如何右法？\n    输出（取反：5）\n"}, false, -3},
 	{"selective library import hides the rest", "导入《@算》之加倍\n输出（取反：4）", map[string]string{}, true, 0},
+	{"constructor of a selectively imported type uses its module's methods", "导入“图形”之方块\n令B = （新建方块：4）\n输出 B之面积", map[string]string{"图形": shapeSrc}, false, 16},
+	{"method of a selectively imported type uses its module's methods", "导入“图形”之方块\n令B = （新建方块：4）\n输出 以B（扩大：2）", map[string]string{"图形": shapeSrc}, false, 64},
+	{"second method of a selectively imported type uses its module's methods", "导入“图形”之方块\n令B = （新建方块：3）\n输出 以B（周长）", map[string]string{"图形": shapeSrc}, false, 13},
+	{"imported constructor is not confused by a same-named method of the importer", "导入“图形”之方块\n如何求平方？\n    输入X\n    输出 -1\n令B = （新建方块：4）\n输出 B之面积 + （求平方：2）", map[string]string{"图形": shapeSrc}, false, 15},
+	{"imported method is not confused by a same-named method of the importer", "导入“库”之加一\n如何内部？\n    输入Y\n    输出 -100\n输出（加一：3）+（内部：1）", map[string]string{"库": libSrc}, false, -93},
+	{"constructor of an imported type uses what its module imported", "导入“图形二”之圆\n令C = （新建圆：3）\n输出 C之面积", map[string]string{"图形二": "导入“库”之加一\n定义圆：\n    其面积设为0\n如何新建圆？\n    输入R\n    其面积 = （加一：R）\n", "库": libSrc}, false, 7},
 	{"self import", "导入“甲”\n输出 1", map[string]string{"甲": "导入“甲”\n如何F？\n    输出 1\n"}, true, 0},
 }
 
